@@ -46,6 +46,128 @@ CORPUS = {
         node(6, [('a', inp(3)), ('b', inp(0)), ('c', inp(5))])]),
 }
 
+
+# ------------------------------------------------------------------------------------------------ interaction motifs
+def sw(dec, cases, name='sw0'):
+    return {'kind': 'switch', 'decider': dec, 'cases': [[l, c] for l, c in cases], 'name': name}
+
+
+def one(*cands):
+    return {'kind': 'oneof', 'cands': list(cands)}
+
+
+def rec(start, dest, mx):
+    return {'kind': 'rec', 'start': start, 'dest': dest, 'max': mx}
+
+
+LAB = {'kind': 'label', 'v': 'l0'}
+MOTIFS = {
+    # a switch case that another, deeper node also reads (who wakes the switch's consumer when the case finishes late?)
+    'M1_case_shared_with_deeper_consumer': spec([
+        node(0), node(1, body=LAB), node(2), node(3, [('a', sw(1, [('l0', 2)]))]), node(4, [('a', inp(2))]),
+        node(5, [('a', inp(3)), ('b', inp(4))])]),
+    'M1c_case_shared_with_much_deeper_consumer': spec([
+        node(0), node(1, body=LAB), node(2), node(3, [('a', sw(1, [('l0', 2)]))]), node(4), node(5, [('a', inp(4))]),
+        node(6, [('a', inp(5))]), node(7, [('a', inp(2)), ('b', inp(6))]), node(8, [('a', inp(3)), ('b', inp(7))])]),
+    'M1b_two_cases_one_shared': spec([
+        node(0), node(1, body=LAB), node(2), node(3), node(4, [('a', sw(1, [('l0', 2), ('l1', 3)]))]),
+        node(5, [('a', inp(2)), ('b', inp(3))]), node(6, [('a', inp(4)), ('b', inp(5))])]),
+    # the decision node is read by somebody else too
+    'M2_decider_shared': spec([
+        node(0), node(1, body=LAB), node(2, [('a', inp(1))]), node(3), node(4, [('a', sw(1, [('l0', 3)]))]),
+        node(5, [('a', inp(2)), ('b', inp(4))])]),
+    # an ancestor of a one-of candidate that the main pipeline needs as well
+    'M3_candidate_ancestor_shared': spec([
+        node(0), node(1), node(2, [('a', inp(1))]), node(3, [('a', inp(2))]), node(4, [('a', inp(0))]),
+        node(5, [('a', one(3, 4))]), node(6, [('a', inp(2)), ('b', inp(5))])]),
+    # a recurrent subgraph inside a one-of candidate
+    'M4_rec_inside_candidate': spec([
+        node(0), node(1, has_additional=True), node(2, [('a', inp(1))]),
+        node(3, [('a', inp(2))], is_rec=True, recur_k=1), node(4, [('a', rec(1, 3, 2))]), node(5),
+        node(6, [('a', one(4, 5))])]),
+    # a switch inside a one-of candidate
+    'M5_switch_inside_candidate': spec([
+        node(0), node(1, body=LAB), node(2), node(3, [('a', sw(1, [('l0', 2)]))]), node(4),
+        node(5, [('a', one(3, 4))])]),
+    # a recurrent destination with a consumer next to another branch
+    'M6_rec_then_join': spec([
+        node(0), node(1, has_additional=True), node(2, [('a', inp(1))], is_rec=True, recur_k=2),
+        node(3, [('a', rec(1, 2, 3))]), node(4, [('a', inp(0))]), node(5, [('a', inp(3)), ('b', inp(4))])]),
+    # one-of nested in the second candidate of another one-of
+    'M7_nested_oneof': spec([
+        node(0), node(1), node(2), node(3), node(4, [('a', one(2, 3))]), node(5, [('a', one(1, 4))])]),
+    # one-of whose result feeds a switch decision
+    'M8_oneof_decides_switch': spec([
+        node(0), node(1, body=LAB), node(2, body=LAB), node(3, [('a', one(1, 2))], body=LAB), node(4), node(5),
+        node(6, [('a', sw(3, [('l0', 4), ('l1', 5)]))])]),
+    # a switch inside a recurrent subgraph whose decision changes in the second iteration
+    'M11_switch_in_rec_label_changes': spec([
+        node(0), node(1, has_additional=True), node(2, [('a', inp(1))], body={'kind': 'labels', 'v': ['l0', 'l1']}),
+        node(3), node(4), node(5, [('a', sw(2, [('l0', 3), ('l1', 4)]))]),
+        node(6, [('a', inp(5))], is_rec=True, recur_k=1), node(7, [('a', rec(1, 6, 2))])]),
+    'M11b_switch_in_rec_label_becomes_unknown': spec([
+        node(0), node(1, has_additional=True), node(2, [('a', inp(1))], body={'kind': 'labels', 'v': ['l0', 'unknown']}),
+        node(3), node(5 - 1, [('a', sw(2, [('l0', 3)]))]),
+        node(5, [('a', inp(4))], is_rec=True, recur_k=1), node(6, [('a', rec(1, 5, 2))])]),
+    # a node outside a recurrent subgraph reads its start node (re-executed while the reader is between attempts)
+    'M12_outside_reader_of_rec_start': spec([
+        node(0), node(1, has_additional=True), node(2, [('a', inp(1))], is_rec=True, recur_k=1),
+        node(3, [('a', rec(1, 2, 2))]), node(4, [('a', inp(1))]), node(5, [('a', inp(3)), ('b', inp(4))])]),
+    # wide layer (sibling concurrency) with retries
+    'M9_wide_layer': spec([node(0)] + [node(i, [('a', inp(0))]) for i in range(1, 7)] +
+                          [node(7, [('abcdef'[i - 1], inp(i)) for i in range(1, 7)])]),
+    # a chain below a switch consumer
+    'M10_switch_then_chain': spec([
+        node(0), node(1, body=LAB), node(2), node(3), node(4, [('a', sw(1, [('l0', 2), ('l1', 3)]))]),
+        node(5, [('a', inp(4))]), node(6, [('a', inp(5)), ('b', inp(0))])]),
+}
+
+
+def wide_spec(w, modes=('coro',)):
+    """one layer of `w` independent siblings of equal depth, collected eight at a time (C06: no cap on how many nodes
+    of one depth are in flight together)"""
+    nodes = [node(0)] + [node(i, [('a', inp(0))], mode=modes[i % len(modes)]) for i in range(1, w + 1)]
+    coll = []
+    for j in range(0, w, 8):
+        grp = list(range(1 + j, 1 + min(j + 8, w)))
+        coll.append(len(nodes))
+        nodes.append(node(len(nodes), [('abcdefgh'[k], inp(g)) for k, g in enumerate(grp)]))
+    nodes.append(node(len(nodes), [('abcdefgh'[k], inp(c)) for k, c in enumerate(coll[:8])]))
+    return spec(nodes)
+
+
+def motif_specs():
+    """every motif: as is, with each non-input node failing for good, with each node retried once, with a falsy value"""
+    import copy
+    out = {}
+    for name, sp in MOTIFS.items():
+        out[name] = sp
+        for i in range(1, len(sp['nodes'])):
+            v = copy.deepcopy(sp)
+            v['nodes'][i]['fails'] = [[0, 1, 'E0']]
+            out[f'{name}/fail{i}'] = v
+            v = copy.deepcopy(sp)
+            v['nodes'][i]['fails'] = [[0, 1, 'E1']]
+            v['nodes'][i]['attempts'] = 2
+            v['nodes'][i]['delay'] = 1
+            out[f'{name}/retry{i}'] = v
+            if sp['nodes'][i]['body']['kind'] == 'prov':
+                v = copy.deepcopy(sp)
+                v['nodes'][i]['body'] = {'kind': 'const', 'v': None}
+                out[f'{name}/none{i}'] = v
+            if sp['nodes'][i].get('is_rec'):
+                v = copy.deepcopy(sp)
+                v['nodes'][i]['fails'] = [[1, 1, 'E0']]        # fails on the restart
+                out[f'{name}/failrestart{i}'] = v
+        for i in range(1, len(sp['nodes'])):
+            # an intermediate node of a recurrent subgraph failing on the restart
+            if any(m['kind'] == 'rec' for n in sp['nodes'] for _, m in n['marks']):
+                v = copy.deepcopy(sp)
+                v['nodes'][i]['fails'] = [[1, 1, 'E0']]
+                out[f'{name}/failsecond{i}'] = v
+    return out
+
+
 if __name__ == '__main__':
     p = Path(__file__).resolve().parent.parent / 'corpus' / 'sched.json'
     p.write_text(json.dumps(CORPUS, indent=1) + '\n')
